@@ -270,6 +270,9 @@ def run_playback(path, keep=False):
     crate = meta["crate"]
     wd = os.path.join(SCRATCH, f"replay-{crate}-{os.getpid()}-{threading.get_ident()}")
     shutil.rmtree(wd, ignore_errors=True)
+    import registry as _reg
+    if crate in getattr(_reg, "PREPARE", {}):
+        _reg.PREPARE[crate](SCRATCH)
     shutil.copytree(os.path.join(KANI_DIR, crate), wd, ignore=shutil.ignore_patterns("target"))
     for shared in ("common", "shims"):       # relative path dependencies of the harness crates
         src_dir = os.path.join(KANI_DIR, shared)
